@@ -1,8 +1,68 @@
 PROP = dict(
     id="C02",
-    lean_modules=[],
-    gen=[],
-    spec_ops=("cell.hash", "cell.levels"),
-    rule="random DAGs; non-trivial = >= 2 cells",
-    trusted_base=[],
+    lean_modules=["TongoProofs.C02"],
+    gen=["LevelMask"],
+    # the model of newImmutableCell is PROVED equal to the TON definition (impl_eq_spec, table_refines_tree), so its
+    # answers are the specification: a mismatch on these ops is a violation with the table as failing input.
+    # `spec.levels` is answered on the model side by the Lean SPEC itself (Spec.hashAt/depthAt on the unfolded tree).
+    spec_ops=("cell.hash", "cell.levels", "cell.all", "spec.levels", "lmask"),
+    rule="(1) random DAGs of ordinary cells (1..40 cells, sharing, chains); (2) WFExotic DAGs over all five cell types "
+         "built children first: parents' masks = OR of the children's (shifted right under Merkle cells), pruned "
+         "branches carry the real level-wise hashes/depths (computed from the definition) of a generated original with "
+         "an extra level bit, or random content with any mask 1..7, Merkle proof/update cells carry the children's "
+         "level-0 hash/depth; the distribution counter ty<t>_mask<m> shows which (type, mask) pairs occurred; "
+         "(3) every bit length 0..1023 as leaf and with children; (4) chains of depth 1022..1100 and pruned branches "
+         "with stored depth 0..65535 under chains / under a Merkle proof (depth-limit boundary); (5) every cell of "
+         "every bag of cells found in the repo's testdata directories (whole files, hex/base64 strings in JSON, BOCs "
+         "embedded in binary lite-server answers), parsed by the real parser: all cells through the digest op "
+         "cell.all and the direct oracle go.boc, roots and a sample of inner cells (exotic ones over-sampled) with "
+         "explicit answers; (6) level-mask helpers on all masks 0..7 x levels 0..5 and random 32-bit masks. "
+         "non-trivial = distinct table with >= 2 cells or an exotic root.",
+    trusted_base=[
+        "hand model lean/TongoModel/Cell.lean (levelStep/computeInfo/HashInfo.hashAt/depthAt/Table.infos) tied to "
+        "boc/immutable_cell.go by exact correspondence of all four level hashes, depths and Level() on every run; "
+        "lean/TongoModel/HashMemo.lean (memo table) is a model of the caching control flow only - its tie is the direct "
+        "oracle go.cached",
+        "translator X4 (harness/cmd/extract/intfuns.go) + lean/TongoModel/GoInt.lean for boc/level_mask.go "
+        "(obligation gen_levelmask)",
+        "lean/TongoModel/Prim/Sha256.lean validated against crypto/sha256 on every run (prim.sha256); in the theorems "
+        "the hash function is a parameter",
+        "harness: canonical table dumper h.Canon/RowOf, boc.VerifNewCell (builds cells the way DeserializeBoc does), "
+        "the Go transcription of the definition harness/h/spechash.go used by the direct oracles",
+    ],
+    assumptions=[
+        "the model's data buffer is the ideal bit list (exactly ceil(len/8) bytes, bits beyond len zero); a Go cell "
+        "whose buffer carries data bits beyond len hashes differently (known finding: defect #7, BitString.ReadBits)",
+        "level masks are 3-bit (what a bag of cells can encode: d1 >> 5); masks > 7 only through lmask",
+        "theorems are for every hash function H; nothing about SHA-256 is used (no collision-freedom needed for C02)",
+        "mutation of a tree between two calls of the same Hasher is outside the property (CacheInv is the hypothesis "
+        "of cache_sound)",
+    ],
+    partial=[],
+    level="proof",
+    level_text="Theorems for ALL cell trees (lean/TongoProofs/C02.lean, no sorry/axioms beyond propext, Classical.choice, "
+               "Quot.sound): impl_eq_spec - for every tree satisfying the decidable exotic-cell rules WFExotic (in fact "
+               "the weaker wfSizes) and within the depth limit, the line-by-line model of newImmutableCell + "
+               "immutableCell.Hash/Depth returns at levels 0..4 exactly the hashes/depths of the TON definition "
+               "(Spec.hashAt/depthAt, written independently by recursion on cell and level) and Level() = bit length of "
+               "the mask, for every hash function H; reprHash_eq_spec (Cell.Hash = hash at level 3); depth_limit "
+               "(ErrDepthIsTooBig iff a non-pruned cell would exceed depth 1024 at some level); no_panic_wf and the "
+               "witness panic_without_wf (a 2-byte pruned branch makes Hash() panic: relevant to C07); levelmask_facts / "
+               "levelmask_bits (finite table, kernel decide) and gen_levelmask tying the hand model of the mask helpers "
+               "to definitions regenerated from boc/level_mask.go on every run; cache_sound / hash_structural (memoised "
+               "hashing with any valid pointer-keyed table = plain recursion; result depends on the tree only); "
+               "table_refines_tree (the table evaluation run by the compiled driver = the tree recursion the theorems "
+               "are about). Tie, checked on every run: Go Cell.Hash, all four level hashes/depths (hook "
+               "VerifHashLevels[Cached]) and Level() vs the compiled model on generated WFExotic DAGs and on every cell "
+               "of every testdata BOC; the Lean SPEC itself vs Go on small trees (spec.levels); direct oracles on Go "
+               "alone against a Go transcription of the definition (go.spec, go.boc), cached vs fresh (go.cached), "
+               "hash unchanged by reads (go.reads), independent of how the cell was obtained (go.obtained: builder API, "
+               "serialise+parse; go.readbits: known finding defect #7).",
+    level_note="assurance = min(theorems about the model, tie): the tie is differential (generated + all testdata), not a "
+               "proof about the Go source; SHA-256 is a parameter in the theorems and the validated Lean implementation "
+               "in the driver",
+    technique="Lean 4: specification by structural recursion (cell) x recursion on the level; per-cell loop invariant "
+              "for the model of newImmutableCell with finite mask facts by kernel decide; mutual induction over the "
+              "nested cell tree; memo-table invariant; fold-over-array refinement. Go harness with bottom-up WFExotic "
+              "generator and an independent transcription of the definition.",
 )
